@@ -147,6 +147,7 @@ type Enc struct {
 	dryCache        []dryCached
 	applyCells      map[string]*Val // captured-variable cells while a closure's contract is applied at a call site
 	recGhost        map[string]bool
+	axiomLines      []axiomLine
 }
 
 func newEnc(P *Program, db *SpecDB, ti *TypeInfo) *Enc {
@@ -507,6 +508,17 @@ func (e *Enc) strLit(s string) string {
 	if n, ok := e.strLits[s]; ok {
 		return n
 	}
+	if s == "" {
+		// the empty string is the zero value of the string type
+		z := e.zero("Str")
+		e.declFun("strlen", []string{"Str"}, "Int")
+		e.assert("(= (strlen " + z + ") 0)")
+		for _, k := range sortedKeys(e.strLits) {
+			e.assert("(not (= " + z + " " + e.strLits[k] + "))")
+		}
+		e.strLits[s] = z
+		return z
+	}
 	n := sym(fmt.Sprintf("str!%d!%s", len(e.strLits), truncate(s, 24)))
 	e.declConst(n, "Str")
 	e.declFun("strlen", []string{"Str"}, "Int")
@@ -729,7 +741,11 @@ func (e *Enc) mergeStates(hint string, sts []*State, conds []string) *State {
 	if sameHist {
 		n.epoch = sts[0].epoch
 	} else {
-		n.mergeOf = append([]*State(nil), sts...)
+		// snapshots, not the live objects: callers overwrite a state object in place (`*st = *m` after an inlined
+		// call or a deferred call), which would otherwise make a state its own ancestor
+		for _, s := range sts {
+			n.mergeOf = append(n.mergeOf, s.clone())
+		}
 		n.mergeConds = append([]string(nil), conds...)
 	}
 	keys := map[string]bool{}
